@@ -86,6 +86,34 @@ func buildUniverse() []Obj {
 	} {
 		add(w(f24), w(s24), w(g24))
 	}
+	// the other number representations: complex, and the integer objects only
+	// coerce makes (octet, signed-byte, unsigned-byte, bit), each built twice,
+	// against the fixnum / float / bignum of the same value and a neighbour
+	cx := func(v string) Obj { return num("complex", v) }
+	add(cx("1 0"), cx("1 0"), cx("1 2"), cx("1 2"), cx("1 3"), cx("2 2"), cx("0.5 0"), cx("0 0"), cx("0 1"), cx("-1 0"), cx(p53+" 0"))
+	add(num("octet", "1"), num("octet", "1"), num("octet", "0"), num("octet", "65"), num("octet", "97"), num("octet", "255"), fix(255))
+	add(num("sbyte", "1"), num("sbyte", "1"), num("sbyte", "-1"), num("sbyte", "65"), num("sbyte", "0"), num("sbyte", p70), num("sbyte", "-"+p64))
+	add(num("ubyte", "1"), num("ubyte", "1"), num("ubyte", "65"), num("ubyte", "0"), num("ubyte", p70), num("big", "-"+p64))
+	add(num("bit", "1"), num("bit", "1"), num("bit", "0"))
+	add(list(num("octet", "1")), list(cx("1 0")), vec(num("sbyte", "1")), vec(num("ubyte", "1")), list(num("bit", "1")), dot(fix(1), num("octet", "65")),
+		list(cx("1 2"), str("a")), list(cx("1 2"), str("A")), tab(fix(1), num("sbyte", "1")), inst("c16-k", num("octet", "1")))
+	// bit vectors and octets vectors (vectors of bits / of integers), built twice, against general vectors, strings and lists of the same elements
+	bv := func(v string) Obj { return Obj{K: "bitv", V: v} }
+	oc := func(v string) Obj { return Obj{K: "octs", V: v} }
+	add(bv("101"), bv("101"), bv("100"), bv("1010"), bv(""), bv(""), vec(fix(1), fix(0), fix(1)), list(fix(1), fix(0), fix(1)), vec(num("bit", "1"), num("bit", "0"), num("bit", "1")))
+	add(oc("ab"), oc("ab"), oc("AB"), oc("ac"), oc("a"), oc(""), vec(fix(97), fix(98)), list(fix(97), fix(98)), vec(num("octet", "97"), num("octet", "98")),
+		list(bv("101"), oc("ab")), list(bv("101"), oc("ab")), list(bv("100"), oc("ab")), vec(oc("ab")), vec(oc("ab")))
+	// equal numbers in two of the coerce-made representations inside every container equal/equalp descends into
+	for _, w := range []func(Obj) Obj{
+		func(o Obj) Obj { return vec(o) },
+		func(o Obj) Obj { return list(vec(o)) },
+		func(o Obj) Obj { return dot(vec(o), fix(2)) },
+		func(o Obj) Obj { return arr("1x1", o) },
+		func(o Obj) Obj { return inst("c16-k", o) },
+		func(o Obj) Obj { return tab(fix(1), o) },
+	} {
+		add(w(num("sbyte", "5")), w(num("double", "5.0")), w(num("octet", "200")), w(num("ubyte", "200")))
+	}
 	return u
 }
 
@@ -106,6 +134,11 @@ var numFamilies = [][]Obj{
 	// near misses: different values that collide once converted to a float format
 	{num("fix", p53b)}, {num("fix", p53), num("double", p53+".0")}, {num("ratio", "1/10")}, {num("double", "0.1")}, {num("single", "0.1")},
 	{num("ratio", "1/3")}, {num("double", "0.3333333333333333")}, {fix(16777217)}, {fix(16777216), num("single", "16777216.0")},
+	// the representations only coerce makes, and complex
+	{fix(5), num("octet", "5"), num("sbyte", "5"), num("ubyte", "5"), num("double", "5.0")},
+	{fix(-6), num("sbyte", "-6"), num("single", "-6.0")},
+	{fix(200), num("octet", "200"), num("ubyte", "200")},
+	{num("complex", "1 2")}, {num("complex", "1 -2")}, {num("complex", "4 0"), fix(4), num("double", "4.0")},
 }
 
 // nearMiss maps a number to values that differ from it but collide with it
